@@ -136,8 +136,9 @@ def resolveOne (s : Nat) (res : Res) (l : Life) : Life :=
 def excRes (raised : Bool) : Res := if raised then .closeExc else .eof
 
 /-- `_box`, by-reference branch: `if self._channel.closed: raise EOFError("connection closed")` comes before
-`self._local_objects.add(id_pack, obj)` -/
-def boxRefusesOnClosedChannel : Bool := true
+`self._local_objects.add(id_pack, obj)` — MEASURED on the live `Connection._box` (`gen_proto.py`), not typed here; the
+obligation `box_refuses_on_closed_channel` (LifeLemmas) states that it is true -/
+def boxRefusesOnClosedChannel : Bool := Gen.Proto.boxRefusesOnClosedChannel
 
 /-- does boxing an object (`byRef`: by reference) put an entry into `_local_objects`? -/
 def boxRegisters (chanClosed byRef : Bool) : Bool := byRef && !(chanClosed && boxRefusesOnClosedChannel)
